@@ -152,6 +152,10 @@ def run(ctx):
                 'correspondence cases add the input kind (variant, variant+tail, 9 malformed kinds) and outcome class; '
                 'non-trivial = at least one rewrite feature used or malformed input')
     ok = ctx.coq_props()
+    ctx.trusted_base += [
+        'Ber/X690.v part 2 (BER trees, bwf, bread): my formalisation of X.690 clause 8, pinned by ber_check on every variant',
+        'harness/codec_ber.py: independent TLV parser / rewriter / tag calculator',
+        'proposed_fixes/C04-*.diff (and C03-*): the model follows the repaired behaviour']
     known_findings(ctx)
     mods, cases = c03.gen_cases(ctx, 40 if ctx.quick else 450, 3, codec='ber')
     ctx.log('%d modules, %d (type, value) cases' % (len(mods), len(cases)))
@@ -169,7 +173,8 @@ def run(ctx):
         common.proof_broken(ctx)
 
 
-OPEN = []
+OPEN = ['ber_roundtrip for types with SET / SET OF / named bits (ber_roundtrip_partial and der_ber_roundtrip are proved)',
+        'ber_forward / ber_backward (unknown extension additions, C07)', 'ber_dec_steps (C08)']
 
 
 def known_findings(ctx):
